@@ -25,7 +25,7 @@ def main() -> int:
     a = ap.parse_args()
     prop = runner.load_prop(a.prop.upper())
     for i in range(min(a.max, prop.total(a.tier))):
-        plan = prop.plan_for(a.tier, a.seed, i)
+        plan = runner.make_plan(prop, a.tier, a.seed, i)
         out = runner.safe_execute(prop, plan)
         if out.get("harness_error"):
             print(out["harness_error"])
